@@ -80,11 +80,43 @@ type tbLabel struct {
 	W      *tbW   `json:"w,omitempty"`
 	Net    *trNet `json:"net,omitempty"`
 	Why    string `json:"why,omitempty"` // perturb: what the environment did (statistics only)
+	// ro: while rollout I's reconcile writes the TrafficRouting (its own finalizer), rollout Race.J's controller worker adds /
+	// removes ITS finalizer on the same object: I's first Update meets a genuine 409 and is retried (retry.RetryOnConflict)
+	Race *tbRace `json:"race,omitempty"`
+}
+
+type tbRace struct {
+	J   int  `json:"j"`
+	Add bool `json:"add"`
 }
 
 const tbTRName = "tr"
 
-func tbRoName(i int) string { return "r" + strconv.Itoa(i) }
+// the rollouts' names are prefixes of one another on purpose ("web", "web-v2", "web-v2-b"): a finalizer / label / key
+// comparison that is not exact (prefix, substring) confuses them
+var tbNames = []string{"web", "web-v2", "web-v2-b", "we"}
+
+func tbRoName(i int) string {
+	if i >= 0 && i < len(tbNames) {
+		return tbNames[i]
+	}
+	return "r" + strconv.Itoa(i)
+}
+
+// tbRoIndex: the inverse of tbRoName (-1: not a name of ours)
+func tbRoIndex(name string) int {
+	for i, n := range tbNames {
+		if n == name {
+			return i
+		}
+	}
+	if strings.HasPrefix(name, "r") {
+		if n, err := strconv.Atoi(name[1:]); err == nil && n >= len(tbNames) {
+			return n
+		}
+	}
+	return -1
+}
 
 // ---- the API client of a step: LogClient + the rules of a real API server the fake client lacks + semantic faults ----
 
@@ -92,6 +124,8 @@ type tbClient struct {
 	*LogClient
 	failTRGet    bool
 	failTRUpdate bool
+	race         *tbRace
+	raced        bool
 }
 
 func (c *tbClient) Get(ctx context.Context, key client.ObjectKey, obj client.Object, opts ...client.GetOption) error {
@@ -117,6 +151,29 @@ func (c *tbClient) Update(ctx context.Context, obj client.Object, opts ...client
 				if !have[f] {
 					return apierrors.NewInvalid(schema.GroupKind{Group: "rollouts.kruise.io", Kind: "TrafficRouting"}, tr.Name,
 						field.ErrorList{field.Forbidden(field.NewPath("metadata", "finalizers"), "no new finalizers can be added if the object is being deleted")})
+				}
+			}
+		}
+	}
+	if tr, ok := obj.(*v1alpha1.TrafficRouting); ok {
+		if c.race != nil && !c.raced {
+			// the concurrent writer gets in first: the caller's copy is stale now and the fake API server answers 409
+			c.raced = true
+			cur := &v1alpha1.TrafficRouting{}
+			if err := c.LogClient.Client.Get(ctx, client.ObjectKeyFromObject(tr), cur); err == nil {
+				name := util.ProgressingRolloutFinalizer(tbRoName(c.race.J))
+				fs := []string{}
+				for _, f := range cur.Finalizers {
+					if f != name {
+						fs = append(fs, f)
+					}
+				}
+				if c.race.Add && cur.DeletionTimestamp.IsZero() {
+					fs = append(fs, name)
+				}
+				cur.Finalizers = fs
+				if err := c.LogClient.Client.Update(ctx, cur); err != nil {
+					panic("race: the concurrent finalizer write failed: " + err.Error())
 				}
 			}
 		}
@@ -174,8 +231,8 @@ func tbAbstractTR(cli client.Client, in *tbTR) *tbTR {
 	for _, f := range got.Finalizers {
 		if f == util.TrafficRoutingFinalizer {
 			t.HasFinalizer = true
-		} else if strings.HasPrefix(f, v1alpha1.ProgressingRolloutFinalizerPrefix+"/r") {
-			if n, err := strconv.Atoi(f[len(v1alpha1.ProgressingRolloutFinalizerPrefix)+2:]); err == nil {
+		} else if strings.HasPrefix(f, v1alpha1.ProgressingRolloutFinalizerPrefix+"/") {
+			if n := tbRoIndex(f[len(v1alpha1.ProgressingRolloutFinalizerPrefix)+1:]); n >= 0 {
 				t.Holders = append(t.Holders, n)
 			}
 		}
@@ -319,6 +376,9 @@ func tbStep(js tbJS, lab tbLabel, failN int) (J, faultRun) {
 	res := J{}
 	switch lab.K {
 	case "ro":
+		if lab.Race != nil {
+			res["raced"] = false
+		}
 		if lab.I < 0 || lab.I >= len(js.Ros) || js.Ros[lab.I].Gone {
 			break
 		}
@@ -329,7 +389,7 @@ func tbStep(js tbJS, lab tbLabel, failN int) (J, faultRun) {
 		}
 		base := trBuildWith(js.Net, objs...)
 		base.Log = nil
-		cli := &tbClient{LogClient: base, failTRGet: lab.F == "get", failTRUpdate: lab.F == "update"}
+		cli := &tbClient{LogClient: base, failTRGet: lab.F == "get", failTRUpdate: lab.F == "update", race: lab.Race}
 		trSetMem(js.Mem, tbCanaryKey)
 		old := rolloutctl.VerifSetGracePeriodSeconds(trLongGrace)
 		defer rolloutctl.VerifSetGracePeriodSeconds(old)
@@ -339,6 +399,9 @@ func tbStep(js tbJS, lab tbLabel, failN int) (J, faultRun) {
 		base.FailCallN = 0
 		fr = faultRun{Err: err != nil, Requeue: r.RequeueAfter > 0 || r.Requeue, Calls: base.Calls, Hit: base.FaultHit, Writes: writesOf(base)}
 		res["requeue"], res["err"] = fr.Requeue, fr.Err
+		if lab.Race != nil {
+			res["raced"] = cli.raced
+		}
 		out.Ros[lab.I] = tbAbstractEntry(base.Client, lab.I, e, ro0, hash)
 		out.TR = tbAbstractTR(base.Client, js.TR)
 		out.Net = trAbstract(base.Client)
@@ -473,6 +536,15 @@ func tbEmitTrace(c *Ctx, src string) {
 func tbDo(c *Ctx, js tbJS, lab tbLabel, src string) (tbJS, bool) {
 	var post tbJS
 	ok := true
+	// a third of the fault-free Rollout reconciles in a shared TrafficRouting run against a concurrent finalizer write
+	if lab.K == "ro" && (lab.F == "" || lab.F == "none") && lab.Race == nil && js.TR != nil && len(js.Ros) > 1 && c.Rng.Intn(3) == 0 {
+		j := (lab.I + 1 + c.Rng.Intn(len(js.Ros)-1)) % len(js.Ros)
+		held := false
+		for _, h := range js.TR.Holders {
+			held = held || h == j
+		}
+		lab.Race = &tbRace{J: j, Add: !held}
+	}
 	in := tbIn{JS: js, Label: lab, Src: src}
 	impl := guard(func() interface{} {
 		r, _ := tbStep(js, lab, 0)
